@@ -49,6 +49,7 @@ func verifyFunction(P *Program, S *Specs, fn *ssa.Function, ct *Contract, prop s
 	fr.contract = ct
 	entry := ex.newMem()
 	ex.entryEpoch = entry.ep.id
+	ex.frozen = entry
 	// parameters
 	for i, p := range fn.Params {
 		s := ex.D.sortOf(p.Type())
@@ -115,6 +116,7 @@ func verifyFunction(P *Program, S *Specs, fn *ssa.Function, ct *Contract, prop s
 				names := map[string]Val{}
 				bindResultNames(names, fn.Signature, r.results)
 				ec.names = names
+				ec.goal = true
 				g, err := ec.tryBool(en.E)
 				if err != nil {
 					ex.failOb("contract-typechecks", fmt.Sprintf("ensures%d", i+1), err.Error()+" in ensures "+en.Src, fn.Pos())
@@ -185,7 +187,8 @@ func (fr *Frame) frameObligation(entry *MemState) {
 				continue
 			}
 			var g string
-			if strings.HasPrefix(k, "F_") {
+			md := ex.S.Models[strings.TrimPrefix(k, "F_")]
+			if strings.HasPrefix(k, "F_") && (md == nil || len(md.Params) == 0 || md.Params[0].S != SInt) {
 				g = fmt.Sprintf("(= %s %s)", a, b)
 			} else {
 				g = fmt.Sprintf("(forall ((a Int)) (=> (<= (root a) allocbase) (= (select %s a) (select %s a))))", a, b)
